@@ -220,3 +220,15 @@ func (ld *Loaded) funcByName(name string) *ssa.Function {
 	}
 	return p.Func(name[i+1:])
 }
+
+// isRepoFn: functions of the repository under test (not harness files, not libraries).
+func (ld *Loaded) isRepoFn(fn *ssa.Function) bool {
+	if fn.Pkg == nil || fn.Pkg == ld.verifrt {
+		return false
+	}
+	if !strings.HasPrefix(fn.Pkg.Pkg.Path(), RepoModule) {
+		return false
+	}
+	pos := ld.Prog.Fset.Position(fn.Pos())
+	return !strings.Contains(pos.Filename, "zz_verif")
+}
